@@ -208,6 +208,9 @@ class Agg:
         self.errors.extend(other.errors)
 
 
+STALE_S = 90.0
+
+
 class _Stuck(Exception):
     pass
 
@@ -331,6 +334,7 @@ def run_batch(modname, tier, root, *, n_runs, budget_s, workers=None, batch=None
     batch = batch or getattr(mod, 'BATCH', 200)
     units = list(units or [])
     hard_timeout = max(120.0, budget_s * 4 + 120)
+    last_done = t0
     submitted_runs = 0
     import tempfile
     import shutil
@@ -370,8 +374,28 @@ def run_batch(modname, tier, root, *, n_runs, budget_s, workers=None, batch=None
                     next_i = i1
                 if not pending:
                     break
-                done, pending = wait(pending, timeout=hard_timeout, return_when=FIRST_COMPLETED)
+                done, pending = wait(pending, timeout=10.0, return_when=FIRST_COMPLETED)
+                now = time.time()
+                if done:
+                    last_done = now
+                hung = False
                 if not done:
+                    if now - last_done > hard_timeout:
+                        hung = True
+                    elif stop_new and now - t0 > budget_s + 30:
+                        # the budget is over, ordinary batches end within seconds: workers that have been sitting
+                        # in one and the same run for more than STALE_S seconds are not going to answer
+                        ages = []
+                        for fn in os.listdir(cur_dir):
+                            try:
+                                st = os.stat(os.path.join(cur_dir, fn))
+                                busy = open(os.path.join(cur_dir, fn)).read(8).startswith(('["s"', '["u"'))
+                            except OSError:
+                                continue
+                            if busy:
+                                ages.append(now - st.st_mtime)
+                        hung = bool(ages) and min(ages) > STALE_S
+                if hung:
                     # which runs are the workers sitting in?  (they are killed below; the caller confirms each
                     # suspect in a process of its own and reports the ones that never answer as violations)
                     for fn in sorted(os.listdir(cur_dir)):
